@@ -32,8 +32,10 @@ def run_verus(path, rlimit=None, timeout=600):
         cmd += ["--rlimit", str(rlimit)]
     t0 = time.time()
     try:
+        env = dict(os.environ)
+        env.setdefault("RUST_MIN_STACK", "536870912")    # long generated if-chains (70 SPARC register names) overflow the default compiler stack
         p = subprocess.run(cmd, capture_output=True, text=True, timeout=timeout,
-                           cwd=os.path.dirname(path))
+                           cwd=os.path.dirname(path), env=env)
         out, err, rc = p.stdout, p.stderr, p.returncode
     except subprocess.TimeoutExpired as e:
         out, err, rc = "", "TIMEOUT after %ds" % timeout, 124
@@ -144,6 +146,32 @@ def check_unit(spec_path, do_twins=True, keep=True):
     res["paired_kani"] = u.get("paired_kani", [])
     os.makedirs(os.path.join(WORK, "verus", u["unit"]), exist_ok=True)
     gdir = os.path.join(WORK, "verus", u["unit"])
+    if u.get("generated_by"):
+        # the specification side of this unit is generated from /repo (register names and the slots
+        # get_register_always reads): it is regenerated on every run and the fresh text is what gets verified, so
+        # the table always follows the tree under test; the committed copy only documents the unchanged tree
+        import shlex
+        import shutil
+        import tempfile
+        td = tempfile.mkdtemp(prefix="verif-gen-")
+        try:
+            cmd = shlex.split(u["generated_by"]) + ["--out", td]
+            cmd[0] = os.path.join(ROOT, cmd[0])
+            e = dict(os.environ)
+            e["VERIF_REPO"] = REPO
+            g = subprocess.run(cmd, capture_output=True, text=True, env=e, timeout=300)
+            fresh = os.path.join(td, os.path.basename(spec_path))
+            if g.returncode != 0 or not os.path.exists(fresh):
+                res["reason"] = "lost-anchor: generator `%s` failed: %s" % (u["generated_by"], (g.stderr or g.stdout).strip()[-300:])
+                return res
+            res["regenerated_differs"] = open(fresh).read() != open(spec_path).read()
+            try:
+                u = vspec.parse(fresh)
+            except Exception as ex:
+                res["reason"] = "spec-error: %s" % ex
+                return res
+        finally:
+            shutil.rmtree(td, ignore_errors=True)
     try:
         text, meta = vspec.generate(u, REPO, SPECS)
     except rsx.LostAnchor as e:
